@@ -20,10 +20,12 @@ def marks(src=None):
     return m
 
 
-def text(n, multibyte):
+def text(n, multibyte, breaks=False):
     out = []
     for i in range(n):
-        if multibyte and i % 7 == 3:
+        if breaks and i % 11 == 5:
+            out.append("\n")
+        elif multibyte and i % 7 == 3:
             out.append("é")
         else:
             out.append(chr(ord("a") + i % 26))
@@ -51,7 +53,7 @@ def expected(script, src=None):
     where, prints, trap, depth = parse(script)
     out = b""
     for kind, n in prints:
-        out += text(n, kind >= 2)
+        out += text(n, (kind // 2) % 2 == 1, (kind // 4) % 2 == 1)
         if kind % 2 == 1:
             out += b"\n"
     mk = marks(src)
@@ -109,8 +111,8 @@ def generate(rng):
     nprints = rng.randint(0, 6)
     prints = []
     for _ in range(nprints):
-        kind = rng.choice([0, 0, 1, 1, 2, 3])
-        n = rng.choice([0, 1, 5, 80, 500, 1000, 1023, 1024, 1025, 2000, 4096, 8191, 8192, 8193, 20000, 65536]) if rng.random() < 0.7 else rng.randint(0, 3000)
+        kind = rng.choice([0, 0, 1, 1, 2, 3, 4, 4, 5, 6])
+        n = rng.choice([0, 1, 5, 6, 7, 12, 17, 80, 500, 1000, 1023, 1024, 1025, 2000, 4096, 8191, 8192, 8193, 20000, 65536]) if rng.random() < 0.7 else rng.randint(0, 3000)
         prints.append((kind, n))
     trap = rng.choice([0, 1, 2, 3, 4, 5, 7, 8, 9, 10, 11, 1, 2, 3])
     depth = rng.randint(0, 6)
